@@ -1,22 +1,28 @@
 //! C10 — text given through the API reads back unchanged.
 //!
-//! Request: `txt <site> <cps>`   site ∈ title author subject keywords creator producer outline annot
-//!          cps = code points (hex) joined by `.`, `-` = empty string
-//! The text is handed to the public API, the document is written with the real writer
-//! (`Document::to_bytes_with_config`, streams uncompressed so that dictionaries are plain), then
-//!   raw = the bytes between the parentheses of the emitted literal string, cut from the file
-//!   lib = what the library reads back: Info fields through `PdfReader::metadata()`; outline
-//!         `/Title` and annotation `/Contents` through the real `Lexer` on the file bytes followed by
-//!         `PdfString::to_text` (= `decode_text_string`)
-//! Answer: `raw=<hex>;lib=<cps>`.
+//! Request: `txt <site> <cps>`   cps = code points (hex) joined by `.`, `-` = empty string
+//!   whole write (`Object::String`):  title author subject keywords creator producer  (Info, `Document::set_*`)
+//!                                    outline (`OutlineItem::new`)   annot (`Annotation::with_contents`)
+//!                                    field (`TextField::with_value` → /V)   fielddv (`with_default_value` → /DV)
+//!                                    fillw (`Document::fill_field` before the write → /V)
+//!   incremental:                     ifill (`IncrementalFormFiller::fill` on a written base → /V)
+//!                                    note / noteupd (`IncrementalTextNoteEditor` Add / Update → /Contents)
+//! The text goes through the public API and the real writer (classic xref, streams uncompressed so
+//! that an independent reader can walk the file), then
+//!   tok  = the string token as it stands in the file (cut after the key, last occurrence)
+//!   lib  = what the library reads back through its document reader: `PdfReader::metadata()` for Info,
+//!          `IncrementalTextNoteEditor::notes()` for notes, otherwise `PdfReader` navigation to the
+//!          object + `PdfString::to_text`
+//!   file = the whole file (for the independent reader on the Lean side)
+//! Answer: `tok=<hex>;lib=<cps>;file=<hex>`  or  `err:<class>` when the API refuses the text.
 use oxiharness::*;
 use oxidize_pdf::annotations::{Annotation, AnnotationType};
+use oxidize_pdf::forms::{FormManager, TextField, Widget, WidgetAppearance};
 use oxidize_pdf::geometry::{Point, Rectangle};
-use oxidize_pdf::parser::lexer::{Lexer, Token};
-use oxidize_pdf::parser::objects::PdfString;
+use oxidize_pdf::parser::objects::{PdfDictionary, PdfObject};
 use oxidize_pdf::parser::PdfReader;
 use oxidize_pdf::structure::{OutlineItem, OutlineTree};
-use oxidize_pdf::writer::WriterConfig;
+use oxidize_pdf::writer::{IncrementalFormFiller, IncrementalTextNoteEditor, TextNoteMutation, WriterConfig};
 use oxidize_pdf::{Document, Page};
 use std::io::Cursor;
 
@@ -28,41 +34,234 @@ fn cps_of(s: &str) -> String {
     }
 }
 
-fn find(hay: &[u8], needle: &[u8], from: usize) -> Option<usize> {
-    hay[from..].windows(needle.len()).position(|w| w == needle).map(|p| p + from)
-}
-
-/// the literal string that follows `key` (e.g. `/Title`): (offset of `(`, raw bytes between the
-/// outer parentheses)
-fn cut_literal(file: &[u8], key: &[u8]) -> Option<(usize, Vec<u8>)> {
-    let mut from = 0;
+/// the string token (literal or hexadecimal) that follows the LAST occurrence of `key` which is
+/// followed by a string
+fn cut_token(file: &[u8], key: &[u8]) -> Option<Vec<u8>> {
+    let mut k = file.len().checked_sub(key.len())?;
     loop {
-        let k = find(file, key, from)?;
-        let mut i = k + key.len();
-        while i < file.len() && (file[i] == b' ' || file[i] == b'\n' || file[i] == b'\r') {
-            i += 1;
-        }
-        if i < file.len() && file[i] == b'(' {
-            let start = i + 1;
-            let mut depth = 1;
-            let mut j = start;
-            while j < file.len() {
-                match file[j] {
-                    b'\\' => j += 1,
-                    b'(' => depth += 1,
-                    b')' => {
-                        depth -= 1;
-                        if depth == 0 {
-                            return Some((i, file[start..j].to_vec()));
-                        }
-                    }
-                    _ => {}
-                }
-                j += 1;
+        if &file[k..k + key.len()] == key {
+            let mut i = k + key.len();
+            while i < file.len() && (file[i] == b' ' || file[i] == b'\n' || file[i] == b'\r') {
+                i += 1;
             }
+            if i < file.len() && file[i] == b'(' {
+                let mut depth = 1;
+                let mut j = i + 1;
+                while j < file.len() {
+                    match file[j] {
+                        b'\\' => j += 1,
+                        b'(' => depth += 1,
+                        b')' => {
+                            depth -= 1;
+                            if depth == 0 {
+                                return Some(file[i..=j].to_vec());
+                            }
+                        }
+                        _ => {}
+                    }
+                    j += 1;
+                }
+                return None;
+            }
+            if i + 1 < file.len() && file[i] == b'<' && file[i + 1] != b'<' {
+                let j = file[i..].iter().position(|&b| b == b'>')? + i;
+                return Some(file[i..=j].to_vec());
+            }
+        }
+        if k == 0 {
             return None;
         }
-        from = k + key.len();
+        k -= 1;
+    }
+}
+
+type R<'a> = PdfReader<Cursor<&'a [u8]>>;
+
+fn deref(r: &mut R, o: &PdfObject) -> Option<PdfObject> {
+    match o {
+        PdfObject::Reference(n, g) => r.get_object(*n, *g).ok().cloned(),
+        other => Some(other.clone()),
+    }
+}
+fn get(r: &mut R, d: &PdfDictionary, key: &str) -> Option<PdfObject> {
+    let o = d.get(key)?.clone();
+    deref(r, &o)
+}
+fn get_dict(r: &mut R, d: &PdfDictionary, key: &str) -> Option<PdfDictionary> {
+    get(r, d, key)?.as_dict().cloned()
+}
+fn text_of(o: Option<PdfObject>) -> Option<String> {
+    o?.as_string().map(|s| s.to_text())
+}
+
+/// the library's own reading of the value at the site, through its document reader
+fn lib_read(site: &str, bytes: &[u8]) -> Result<Option<String>, String> {
+    let mut r = PdfReader::new(Cursor::new(bytes)).map_err(|_| "err:reader".to_string())?;
+    match site {
+        "title" | "author" | "subject" | "keywords" | "creator" | "producer" => {
+            let m = r.metadata().map_err(|_| "err:metadata".to_string())?;
+            Ok(match site {
+                "title" => m.title,
+                "author" => m.author,
+                "subject" => m.subject,
+                "keywords" => m.keywords,
+                "creator" => m.creator,
+                _ => m.producer,
+            })
+        }
+        "note" | "noteupd" => {
+            let notes = IncrementalTextNoteEditor::new(bytes).notes().map_err(|_| "err:notes".to_string())?;
+            Ok(notes.last().map(|n| n.contents.clone()))
+        }
+        _ => {
+            let cat = r.catalog().map_err(|_| "err:catalog".to_string())?.clone();
+            match site {
+                "outline" => {
+                    let o = get_dict(&mut r, &cat, "Outlines").ok_or("err:no-outlines")?;
+                    let first = get_dict(&mut r, &o, "First").ok_or("err:no-first")?;
+                    Ok(text_of(get(&mut r, &first, "Title")))
+                }
+                "annot" => {
+                    let pages = r.pages().map_err(|_| "err:pages".to_string())?.clone();
+                    let kids = get(&mut r, &pages, "Kids").ok_or("err:no-kids")?;
+                    let k0 = kids.as_array().and_then(|a| a.0.first().cloned()).ok_or("err:no-page")?;
+                    let page = deref(&mut r, &k0).and_then(|o| o.as_dict().cloned()).ok_or("err:no-page")?;
+                    let annots = get(&mut r, &page, "Annots").ok_or("err:no-annots")?;
+                    let arr = annots.as_array().cloned().ok_or("err:no-annots")?;
+                    for a in arr.0.iter() {
+                        if let Some(d) = deref(&mut r, a).and_then(|o| o.as_dict().cloned()) {
+                            if d.get("Subtype").and_then(|o| o.as_name()).map(|n| n.0 == "Text").unwrap_or(false) {
+                                return Ok(text_of(get(&mut r, &d, "Contents")));
+                            }
+                        }
+                    }
+                    Ok(None)
+                }
+                _ => {
+                    let af = get_dict(&mut r, &cat, "AcroForm").ok_or("err:no-acroform")?;
+                    let fields = get(&mut r, &af, "Fields").ok_or("err:no-fields")?;
+                    let f0 = fields.as_array().and_then(|a| a.0.first().cloned()).ok_or("err:no-field")?;
+                    let fd = deref(&mut r, &f0).and_then(|o| o.as_dict().cloned()).ok_or("err:no-field")?;
+                    Ok(text_of(get(&mut r, &fd, if site == "fielddv" { "DV" } else { "V" })))
+                }
+            }
+        }
+    }
+}
+
+fn err_cls(e: &oxidize_pdf::PdfError) -> &'static str {
+    use oxidize_pdf::PdfError as E;
+    match e {
+        E::FieldNotFound(_) => "field-not-found",
+        E::EncodingError(_) => "encoding",
+        E::InvalidStructure(_) => "structure",
+        _ => "other",
+    }
+}
+
+fn cfg() -> WriterConfig {
+    WriterConfig { use_xref_streams: false, use_object_streams: false, compress_streams: false, ..WriterConfig::default() }
+}
+
+fn form_doc(field: TextField) -> Result<Document, String> {
+    let mut doc = Document::new();
+    let mut page = Page::a4();
+    let mut fm = FormManager::new();
+    let rect = Rectangle::new(Point::new(100.0, 700.0), Point::new(300.0, 720.0));
+    let widget = Widget::new(rect).with_appearance(WidgetAppearance::default());
+    let field_ref = fm.add_text_field(field, widget.clone(), None).map_err(|e| format!("err:{}", err_cls(&e)))?;
+    page.add_form_widget_with_ref(widget, field_ref).map_err(|e| format!("err:{}", err_cls(&e)))?;
+    doc.add_page(page);
+    doc.set_form_manager(fm);
+    Ok(doc)
+}
+
+fn plain_base() -> Result<Vec<u8>, String> {
+    let mut doc = Document::new();
+    doc.add_page(Page::a4());
+    doc.to_bytes_with_config(cfg()).map_err(|e| format!("err:{}", err_cls(&e)))
+}
+
+fn produce(site: &str, text: &str) -> Result<(Vec<u8>, &'static [u8]), String> {
+    let w = |mut d: Document| d.to_bytes_with_config(cfg()).map_err(|e| format!("err:write-{}", err_cls(&e)));
+    let mut doc = Document::new();
+    let mut page = Page::a4();
+    match site {
+        "title" => {
+            doc.set_title(text);
+            doc.add_page(page);
+            Ok((w(doc)?, b"/Title"))
+        }
+        "author" => {
+            doc.set_author(text);
+            doc.add_page(page);
+            Ok((w(doc)?, b"/Author"))
+        }
+        "subject" => {
+            doc.set_subject(text);
+            doc.add_page(page);
+            Ok((w(doc)?, b"/Subject"))
+        }
+        "keywords" => {
+            doc.set_keywords(text);
+            doc.add_page(page);
+            Ok((w(doc)?, b"/Keywords"))
+        }
+        "creator" => {
+            doc.set_creator(text);
+            doc.add_page(page);
+            Ok((w(doc)?, b"/Creator"))
+        }
+        "producer" => {
+            doc.set_producer(text);
+            doc.add_page(page);
+            Ok((w(doc)?, b"/Producer"))
+        }
+        "outline" => {
+            let mut tree = OutlineTree::new();
+            tree.add_item(OutlineItem::new(text));
+            doc.set_outline(tree);
+            doc.add_page(page);
+            Ok((w(doc)?, b"/Title"))
+        }
+        "annot" => {
+            let a = Annotation::new(AnnotationType::Text, Rectangle::new(Point::new(10.0, 10.0), Point::new(40.0, 40.0)))
+                .with_contents(text);
+            page.add_annotation(a);
+            doc.add_page(page);
+            Ok((w(doc)?, b"/Contents"))
+        }
+        "field" => Ok((w(form_doc(TextField::new("f").with_value(text))?)?, b"/V")),
+        "fielddv" => Ok((w(form_doc(TextField::new("f").with_default_value(text))?)?, b"/DV")),
+        "fillw" => {
+            let mut d = form_doc(TextField::new("f"))?;
+            d.fill_field("f", text).map_err(|e| format!("err:{}", err_cls(&e)))?;
+            Ok((w(d)?, b"/V"))
+        }
+        "ifill" => {
+            let base = w(form_doc(TextField::new("f"))?)?;
+            let out = IncrementalFormFiller::new(&base).fill("f", text).map_err(|e| format!("err:{}", err_cls(&e)))?;
+            Ok((out, b"/V"))
+        }
+        "note" => {
+            let base = plain_base()?;
+            let u = IncrementalTextNoteEditor::new(&base)
+                .apply(&[TextNoteMutation::Add { page_index: 0, position: Point::new(50.0, 50.0), contents: text.to_string() }])
+                .map_err(|e| format!("err:{}", err_cls(&e)))?;
+            Ok((u.pdf_bytes, b"/Contents"))
+        }
+        "noteupd" => {
+            let base = plain_base()?;
+            let u = IncrementalTextNoteEditor::new(&base)
+                .apply(&[TextNoteMutation::Add { page_index: 0, position: Point::new(50.0, 50.0), contents: "seed".to_string() }])
+                .map_err(|e| format!("err:seed-{}", err_cls(&e)))?;
+            let id = u.added_notes.first().map(|n| n.id).ok_or("err:seed-no-id")?;
+            let u2 = IncrementalTextNoteEditor::new(&u.pdf_bytes)
+                .apply(&[TextNoteMutation::Update { id, position: Point::new(60.0, 60.0), contents: text.to_string() }])
+                .map_err(|e| format!("err:{}", err_cls(&e)))?;
+            Ok((u2.pdf_bytes, b"/Contents"))
+        }
+        _ => Err("bad-request".into()),
     }
 }
 
@@ -75,105 +274,42 @@ fn run(req: &str) -> String {
         cps.split('.').map(|t| u32::from_str_radix(t, 16).ok().and_then(char::from_u32)).collect()
     };
     let Some(text) = text else { return "bad-request".into() };
-    let mut doc = Document::new();
-    let mut page = Page::a4();
-    let mut key: &[u8] = b"/Title";
-    match *site {
-        "title" => doc.set_title(text.clone()),
-        "author" => {
-            doc.set_author(text.clone());
-            key = b"/Author";
-        }
-        "subject" => {
-            doc.set_subject(text.clone());
-            key = b"/Subject";
-        }
-        "keywords" => {
-            doc.set_keywords(text.clone());
-            key = b"/Keywords";
-        }
-        "creator" => {
-            doc.set_creator(text.clone());
-            key = b"/Creator";
-        }
-        "producer" => {
-            doc.set_producer(text.clone());
-            key = b"/Producer";
-        }
-        "outline" => {
-            let mut tree = OutlineTree::new();
-            tree.add_item(OutlineItem::new(text.clone()));
-            doc.set_outline(tree);
-        }
-        "annot" => {
-            let a = Annotation::new(
-                AnnotationType::Text,
-                Rectangle::new(Point::new(10.0, 10.0), Point::new(40.0, 40.0)),
-            )
-            .with_contents(text.clone());
-            page.add_annotation(a);
-            key = b"/Contents";
-        }
-        _ => return "bad-request".into(),
-    }
-    doc.add_page(page);
-    let cfg = WriterConfig {
-        use_xref_streams: false,
-        use_object_streams: false,
-        compress_streams: false,
-        ..WriterConfig::default()
+    let (bytes, key) = match produce(site, &text) {
+        Ok(x) => x,
+        Err(e) => return e,
     };
-    let bytes = match doc.to_bytes_with_config(cfg) {
-        Ok(b) => b,
-        Err(e) => return format!("err:write:{}", e).chars().take(80).collect(),
+    let tok = match cut_token(&bytes, key) {
+        Some(t) => hex(&t),
+        None => "none".into(),
     };
-    let Some((at, raw)) = cut_literal(&bytes, key) else { return "err:literal-not-found".into() };
-    let lib = match *site {
-        "outline" | "annot" => {
-            let mut lx = Lexer::new(Cursor::new(bytes[at..].to_vec()));
-            match lx.next_token() {
-                Ok(Token::String(b)) => PdfString::new(b).to_text(),
-                _ => return "err:lexer".into(),
-            }
-        }
-        _ => {
-            let mut r = match PdfReader::new(Cursor::new(bytes.clone())) {
-                Ok(r) => r,
-                Err(_) => return format!("raw={};err:reader", hex(&raw)),
-            };
-            let m = match r.metadata() {
-                Ok(m) => m,
-                Err(_) => return format!("raw={};err:metadata", hex(&raw)),
-            };
-            let v = match *site {
-                "title" => m.title,
-                "author" => m.author,
-                "subject" => m.subject,
-                "keywords" => m.keywords,
-                "creator" => m.creator,
-                _ => m.producer,
-            };
-            match v {
-                Some(s) => s,
-                None => return format!("raw={};lib=none", hex(&raw)),
-            }
-        }
+    let lib = match lib_read(site, &bytes) {
+        Ok(Some(s)) => cps_of(&s),
+        Ok(None) => "none".into(),
+        Err(e) => e,
     };
-    format!("raw={};lib={}", hex(&raw), cps_of(&lib))
+    format!("tok={};lib={};file={}", tok, lib, hex(&bytes))
 }
 
-const SITES: &[&str] = &["title", "author", "subject", "keywords", "creator", "producer", "outline", "annot"];
+const SITES: &[&str] = &[
+    "title", "author", "subject", "keywords", "creator", "producer", "outline", "annot", "field", "fielddv", "fillw", "ifill",
+    "note", "noteupd",
+];
+
+const NAMES: [&str; 8] = ["ascii", "delims", "controls", "latin1", "special", "bmp", "astral", "winansi-hi"];
 
 fn rand_char(rng: &mut Rng, class: u64) -> u32 {
     loop {
         let c = match class {
-            0 => rng.range(0x20, 0x7E) as u32,                                   // printable ASCII
-            1 => *rng.pick(&[0x28u32, 0x29, 0x5C, 0x2F, 0x3C, 0x3E, 0x5B, 0x5D, 0x25, 0x23]), // delimiters
-            2 => *rng.pick(&[0x0Au32, 0x0D, 0x09, 0x08, 0x0C, 0x00, 0x01, 0x18, 0x1F, 0x7F]), // controls
-            3 => rng.range(0xA0, 0xFF) as u32,                                   // Latin-1
-            4 => *rng.pick(&[0x80u32, 0x9F, 0xFE, 0xFF, 0x152, 0x2022, 0x20AC, 0x2713, 0xFEFF, 0xFFFD, 0xD7FF, 0xE000]),
-            5 => rng.range(0x100, 0xFFFF) as u32,                                // BMP
-            _ => rng.range(0x10000, 0x10FFFF) as u32,                            // astral
+            0 => rng.range(0x20, 0x7E) as u32,                                                    // printable ASCII
+            1 => *rng.pick(&[0x28u32, 0x29, 0x5C, 0x2F, 0x3C, 0x3E, 0x5B, 0x5D, 0x25, 0x23, 0x7B, 0x7D]), // delimiters
+            2 => *rng.pick(&[0x0Au32, 0x0D, 0x09, 0x08, 0x0C, 0x00, 0x01, 0x17, 0x18, 0x1F, 0x7F]),      // controls
+            3 => rng.range(0xA0, 0xFF) as u32,                                                    // Latin-1
+            4 => *rng.pick(&[0x80u32, 0x85, 0x9F, 0xA0, 0xAD, 0xFE, 0xFF, 0x152, 0x2022, 0x20AC, 0x2713, 0xFEFF, 0xFFFD, 0xFFFE,
+                             0xFFFF, 0xD7FF, 0xE000, 0x0D41, 0x410D, 0x2028, 0x3000, 0x2329]),
+            5 => rng.range(0x100, 0xFFFF) as u32,                                                 // BMP
+            6 => *rng.pick(&[0x10000u32, 0x1F600, 0x10FFFF, 0x1D11E, 0x2000B, 0xFFFFF, 0x100000]), // astral boundaries
+            _ => *rng.pick(&[0x20ACu32, 0x201A, 0x192, 0x201E, 0x2026, 0x2020, 0x2C6, 0x2030, 0x160, 0x152, 0x17D, 0x2018,
+                             0x201D, 0x2022, 0x2014, 0x2DC, 0x2122, 0x161, 0x153, 0x17E, 0x178]),  // WinAnsi 80-9F repertoire
         };
         if char::from_u32(c).is_some() {
             return c;
@@ -181,36 +317,95 @@ fn rand_char(rng: &mut Rng, class: u64) -> u32 {
     }
 }
 
+/// hand-picked nasty texts (code points)
+const NASTY: &[(&str, &[u32])] = &[
+    ("bom-thorn-yuml", &[0xFE, 0xFF, 0x41]),
+    ("bom-thorn-yuml-only", &[0xFE, 0xFF]),
+    ("bom-feff-first", &[0xFEFF, 0x41]),
+    ("bom-fffe-first", &[0xFFFE, 0x41]),
+    ("utf8-bom-lookalike", &[0xEF, 0xBB, 0xBF, 0x41]),
+    ("open-parens", &[0x28, 0x28, 0x28]),
+    ("close-parens", &[0x29, 0x29, 0x41]),
+    ("close-open", &[0x29, 0x28]),
+    ("trailing-backslash", &[0x41, 0x5C]),
+    ("backslash-paren", &[0x5C, 0x29, 0x5C, 0x28]),
+    ("octal-lookalike", &[0x5C, 0x31, 0x30, 0x31]),
+    ("escape-lookalike", &[0x5C, 0x6E, 0x5C, 0x72, 0x5C, 0x0A]),
+    ("cr", &[0x41, 0x0D, 0x42]),
+    ("crlf", &[0x41, 0x0D, 0x0A, 0x42]),
+    ("lfcr", &[0x41, 0x0A, 0x0D, 0x42]),
+    ("cr-end", &[0x41, 0x0D]),
+    ("lf", &[0x41, 0x0A, 0x42]),
+    ("nul", &[0x41, 0x00, 0x42]),
+    ("nul-first", &[0x00]),
+    ("accent-slots", &[0x18, 0x19, 0x1A, 0x1B, 0x1C, 0x1D, 0x1E, 0x1F]),
+    ("del", &[0x7F]),
+    ("astral", &[0x1F600]),
+    ("astral-pair", &[0x10000, 0x10FFFF]),
+    ("bmp-edge", &[0xD7FF, 0xE000, 0xFFFF]),
+    ("cr-byte-in-utf16", &[0x0D41, 0x410D, 0x0A0D]),
+    ("paren-byte-in-utf16", &[0x2829, 0x5C5C, 0x2928]),
+    ("euro-bullet", &[0x20AC, 0x2022]),
+    ("nbsp-shy", &[0xA0, 0xAD]),
+    ("ano", &[0x41, 0xF1, 0x6F, 0x20, 0x2713]),
+    ("hex-lookalike", &[0x3C, 0x46, 0x45, 0x46, 0x46, 0x3E]),
+    ("space-only", &[0x20, 0x20]),
+    ("unicode-space-only", &[0x3000, 0x2028, 0x85]),
+    ("tab-nl-only", &[0x09, 0x0A]),
+    ("space-around", &[0x20, 0x41, 0x20]),
+];
+
+fn fmt(cps: &[u32]) -> String {
+    if cps.is_empty() {
+        "-".into()
+    } else {
+        cps.iter().map(|c| format!("{:x}", c)).collect::<Vec<_>>().join(".")
+    }
+}
+
 fn gen(rng: &mut Rng, tier: Tier) -> Vec<Case> {
     let mut v = Vec::new();
-    let names = ["ascii", "delims", "controls", "latin1", "special", "bmp", "astral"];
-    // every class x every site, single characters and short strings
+    let thorough = tier == Tier::Thorough;
     for site in SITES {
-        for class in 0..7u64 {
-            for len in [1usize, 4] {
-                let cps: Vec<String> = (0..len).map(|_| format!("{:x}", rand_char(rng, class))).collect();
-                v.push(Case::new(format!("txt {} {}", site, cps.join(".")), format!("{} {} nt", site, names[class as usize])));
+        v.push(Case::new(format!("txt {} -", site), format!("{} empty", site)));
+        // every nasty text at every site (thorough); a rotating third of them per site (quick)
+        for (i, (name, cps)) in NASTY.iter().enumerate() {
+            if thorough || rng.chance(1, 3) || i < 3 {
+                v.push(Case::new(format!("txt {} {}", site, fmt(cps)), format!("{} nasty {} nt", site, name)));
             }
         }
-        v.push(Case::new(format!("txt {} -", site), format!("{} empty", site)));
-        v.push(Case::new(format!("txt {} 41.d.a.42", site), format!("{} crlf nt", site)));
+        // every class, single character and a short run
+        for class in 0..8u64 {
+            for len in [1usize, 4] {
+                if !thorough && len == 4 && rng.chance(1, 2) {
+                    continue;
+                }
+                let cps: Vec<u32> = (0..len).map(|_| rand_char(rng, class)).collect();
+                v.push(Case::new(format!("txt {} {}", site, fmt(&cps)), format!("{} {} nt", site, NAMES[class as usize])));
+            }
+        }
     }
-    let n = if tier == Tier::Thorough { 1500 } else { 150 };
+    // mixed strings
+    let n = if thorough { 1500 } else { 160 };
     for _ in 0..n {
         let site = *rng.pick(SITES);
-        let len = rng.range(1, 10) as usize;
-        let ascii_only = rng.chance(1, 3);
+        let len = if rng.chance(1, 20) { rng.range(60, 300) as usize } else { rng.range(1, 12) as usize };
+        let mode = rng.below(4); // 0 ascii+delims, 1 WinAnsi-encodable (fills accept), 2/3 anything
         let mut classes = std::collections::BTreeSet::new();
-        let cps: Vec<String> = (0..len)
+        let cps: Vec<u32> = (0..len)
             .map(|_| {
-                let class = if ascii_only { rng.below(2) } else { rng.below(7) };
-                classes.insert(names[class as usize]);
-                format!("{:x}", rand_char(rng, class))
+                let class = match mode {
+                    0 => rng.below(3),
+                    1 => *rng.pick(&[0u64, 1, 3, 7]),
+                    _ => rng.below(8),
+                };
+                classes.insert(NAMES[class as usize]);
+                rand_char(rng, class)
             })
             .collect();
         v.push(Case::new(
-            format!("txt {} {}", site, cps.join(".")),
-            format!("{} mixed {} nt", site, classes.into_iter().collect::<Vec<_>>().join(" ")),
+            format!("txt {} {}", site, fmt(&cps)),
+            format!("{} mixed{} {} nt", site, if len >= 60 { " long" } else { "" }, classes.into_iter().collect::<Vec<_>>().join(" ")),
         ));
     }
     v
